@@ -118,9 +118,13 @@ pub struct StateReader<O> {
     prev: O,
     state: IterationStateHandle<LoopState>,
     loop_id: u32,
+    loop_path: Vec<usize>,
     site: u32,
     coord: CoordT,
     fold_in: bool,
+    /// number of FlushAndRestart markers forwarded so far = index of the round whose elements
+    /// come next at this point of this replica
+    round: u64,
 }
 
 impl<O: std::fmt::Display> std::fmt::Display for StateReader<O> {
@@ -143,8 +147,9 @@ impl<O: Operator<Out = E>> Operator for StateReader<O> {
                 let st = *self.state.get();
                 let obs = StateObs {
                     loop_id: self.loop_id,
+                    loop_path: self.loop_path.clone(),
                     coord: self.coord,
-                    true_round: e.ts as u64,
+                    true_round: self.round,
                     seen_round: st.0,
                     seen_acc: st.1,
                     site: self.site,
@@ -154,6 +159,10 @@ impl<O: Operator<Out = E>> Operator for StateReader<O> {
                     e.v = e.v.wrapping_add(st.1.rem_euclid(7));
                 }
                 StreamElement::Item(e)
+            }
+            StreamElement::FlushAndRestart => {
+                self.round += 1;
+                StreamElement::FlushAndRestart
             }
             x => x,
         }
@@ -183,6 +192,17 @@ pub fn join_e(key: u16, l: Option<&E>, r: Option<&E>) -> E {
         key,
         v: lv.wrapping_mul(31).wrapping_add(rv),
         ts: l.map(|e| e.ts).unwrap_or(0).max(r.map(|e| e.ts).unwrap_or(0)),
+        pad: Vec::new(),
+    }
+}
+
+/// zip result: keeps both lineage ids visible (id = left id, v = right id)
+pub fn zip_e(a: &E, b: &E) -> E {
+    E {
+        id: a.id,
+        key: a.key,
+        v: b.id as i64,
+        ts: a.ts.max(b.ts),
         pad: Vec::new(),
     }
 }
@@ -317,6 +337,17 @@ impl<'a> Builder<'a> {
     }
 
     fn source(&mut self, i: usize) -> DS<E> {
+        // the scenario's default batch mode applies from every source on (later `Batch` steps
+        // override it; blocks created downstream inherit it)
+        let bm = self.sc.bm;
+        let s = self.source_inner(i);
+        match bm {
+            Bm::Default => s,
+            bm => s.batch_mode(bm.to_renoir()),
+        }
+    }
+
+    fn source_inner(&mut self, i: usize) -> DS<E> {
         match &self.sc.sources[i] {
             Src::Iter(v) => boxed(self.env.stream(IteratorSource::new(v.clone().into_iter()))),
             Src::ParIter(v) => {
@@ -575,7 +606,7 @@ impl<'a> Builder<'a> {
                 self.probe(s, path, 0, "start")
             }
             BinOp::Zip => {
-                let s = boxed(l.zip(r).map(|(a, b)| join_e(a.key, Some(&a), Some(&b))));
+                let s = boxed(l.zip(r).map(|(a, b)| zip_e(&a, &b)));
                 self.probe(s, path, 0, "start")
             }
             BinOp::Join(kind, form) => self.join(l, r, kind, form),
@@ -696,11 +727,7 @@ impl<'a> Builder<'a> {
         let body = move |bs: DS<E>, state: IterationStateHandle<LoopState>| -> DS<E> {
             let me: &mut Builder<'_> = unsafe { &mut *(this as *mut Builder<'_>) };
             let outer: &mut Vec<Option<DS<E>>> = unsafe { &mut *(outer_ptr as *mut Vec<Option<DS<E>>>) };
-            let bs = if spec2.use_state {
-                boxed(bs.add_operator(|p| RoundStamp { prev: p, round: 0 }))
-            } else {
-                bs
-            };
+
             let bs = me.probe(bs, &path2, 0, "loophead");
             let mut local: Vec<Option<DS<E>>> = vec![Some(bs)];
             // state readers are inserted after every body step when requested
@@ -709,11 +736,7 @@ impl<'a> Builder<'a> {
             for (i, s) in local.iter().enumerate() {
                 assert!(s.is_none(), "loop body leaves stream {} unconsumed", i);
             }
-            let out = if spec2.use_state {
-                boxed(out.map(|e| E { ts: 0, ..e }))
-            } else {
-                out
-            };
+
             me.probe(out, &path2, 0, "loopend")
         };
         if spec.iterate {
@@ -760,13 +783,16 @@ impl<'a> Builder<'a> {
                         let site = self.nsites;
                         self.nsites += 1;
                         let state = state.clone();
+                        let loop_path = path.to_vec();
                         *last = Some(boxed(s.add_operator(|p| StateReader {
                             prev: p,
                             state,
                             loop_id,
+                            loop_path,
                             site,
                             coord: (0, 0, 0),
                             fold_in: true,
+                            round: 0,
                         })));
                     }
                 }
